@@ -41,6 +41,26 @@ def check(ctx):
     accept(ctx, P, cg)
     rpc_auth(ctx, P, cg)
     size_rungs(ctx, P)
+    running_counters(ctx, P, cg)
+
+
+def running_counters(ctx, P, cg):
+    """The header-size limit must apply to the whole header section however it is split over reads: the per-object count of
+    consumed header bytes is only ever increased (compound addition) after construction, at every site that consumes input."""
+    fld = "http_bitcoin::HTTPHeaders::m_consumed"
+    ws = cg.writers(fld)
+    fns = sorted({w[0] for w in ws if not w[0].endswith("::HTTPHeaders")})
+    ctx.floor("writers of the consumed-header-bytes counter", len(fns), 1)
+    n = 0
+    for q in fns:
+        for fn in P.fns(q):
+            for s_ in sites(fn, lambda e: (e[0] == "b" and e[1] in ASSIGN_OPS and match([".", ANY, fld], e[2])) or
+                            (e[0] == "u" and e[1] in ("++", "--", "post++", "post--") and match([".", ANY, fld], e[2])), P):
+                n += 1
+                ok = s_.expr[0] == "b" and s_.expr[1] == "+="
+                ctx.ob("HTTPHeaders/m_consumed@L%s" % s_.line, "SIBLING", "the consumed-header-bytes counter is accumulated (+=), never overwritten or decreased, so the "
+                       "MAX_HEADERS_SIZE limit covers the total across any split of the header bytes into reads", ok, s_.where, {"write": show(s_.expr)})
+    ctx.floor("consumed-header-bytes updates", n, 2)
 
 
 # ------------------------------------------------------------------------------------------------
